@@ -1,5 +1,6 @@
 """C03 - neutron SLD, cross sections and penetration follow the documented equations."""
 from contracts import nsf as N
+from contracts import core as K
 
 ID = "C03"
 LEVEL = "proof"
@@ -18,12 +19,13 @@ EXPLANATION = ("Deductive: _calculate_scattering, Neutron.scattering_by_waveleng
 
 def units(tier):
     return [N.U_CALC, N.U_SBW_PLAIN, N.U_SBW_TABLE, N.L_SUM_POSITIVE, N.U_NS_WAVELENGTH, N.U_NS_ENERGY, N.U_NS_DEFAULT,
-            N.U_NSCAT, N.U_NSLD, N.L_ELEMENT_VS_COMPOUND]
+            N.U_NSCAT, N.U_NSLD, N.L_ELEMENT_VS_COMPOUND, K.L_REGISTRATION]
 
 
 def runner_tasks(tier):
     return [{"module": "c03", "task": "sample", "kind": "bounded", "clause": "all outputs vs documented equations, in floats"},
-            {"module": "c07", "task": "energy_tables", "kind": "eval", "clause": "energy-dependent tables: nodes, clamping, interpolation axis"}]
+            {"module": "c07", "task": "energy_tables", "kind": "eval", "clause": "energy-dependent tables: nodes, clamping, interpolation axis"},
+            {"module": "c09", "task": "steps", "name": "first-touch steps", "kind": "eval", "arg": {"groups": ["neutron"]}, "clause": "every first touch of the neutron data (element, isotope, ion, calculators) serves the canonical data", "timeout": 1500}]
 
 
 REPLAY = {'module': 'c03', 'task': 'replay'}
